@@ -50,7 +50,7 @@ func hevcParseSPSs(trees []nalgen.HEVCSPSTree, relax bool) (map[uint32]*hevc.SPS
 // those values (so a wrong key or value is still found), but entries that are missing are not demanded. Each such
 // case is counted as an exclusion. C15_HEVC_CM_OCTANTS_STRICT=1 switches it off (the finding then shows up within a
 // few hundred PPS cases).
-var kfCmOctantsLost = os.Getenv("C15_HEVC_CM_OCTANTS_STRICT") == ""
+var kfCmOctantsLost = os.Getenv("C15_HEVC_CM_OCTANTS_PARKED") != "" // repaired in /repo (fix: hevc colour mapping octants); set to re-park on an old tree
 
 const kfCmOctantsLostKey = "C15|hevc.PPS.MultilayerExtension.ColourMappingTable.Octants|entries of all but the last sub-octant missing"
 
